@@ -7,6 +7,7 @@ import (
 	"io/ioutil"
 	"net"
 	"os"
+	"strings"
 	"sync"
 	"time"
 
@@ -223,15 +224,21 @@ func fsRun(sc fsScenario, seed int64) (verdict, detail string) {
 	defer client.Stop()
 	// the serving node greets the syncing one with its status (height 2)
 	server.AddPeer(clientAtServer)
-	select {
-	case h := <-clientApp.committed:
-		// let ApplyBlock of the committed block finish before the reactor is stopped
-		time.Sleep(20 * time.Millisecond)
-		return "accepted", fmt.Sprintf("block %d committed", h)
-	case r := <-clientNet.stopped:
-		return "rejected", r
-	case <-time.After(20 * time.Second):
-		return "none", "neither a commit nor a peer error within 20 s"
+	deadline := time.After(15 * time.Second)
+	for {
+		select {
+		case h := <-clientApp.committed:
+			return "accepted", fmt.Sprintf("block %d committed", h)
+		case r := <-clientNet.stopped:
+			if strings.Contains(r, "validation error") {
+				return "rejected", r
+			}
+			// a peer error of the block pool (its receive-rate / silence timers fire when the machine
+			// is overloaded): no verdict about the commit, the attempt is abandoned
+			return "none", "peer stopped for another reason: " + r
+		case <-deadline:
+			return "none", "neither a commit nor a validation error within 15 s"
+		}
 	}
 }
 
@@ -249,14 +256,19 @@ func fsChild(c *core.Ctx) {
 	w := bufio.NewWriter(os.Stdout)
 	var mu sync.Mutex
 	var wg sync.WaitGroup
-	sem := make(chan struct{}, 12)
+	sem := make(chan struct{}, 8)
 	for i, sc := range scs {
 		wg.Add(1)
 		go func(i int, sc fsScenario) {
 			defer wg.Done()
 			sem <- struct{}{}
 			defer func() { <-sem }()
-			v, d := fsRun(sc, c.Seed)
+			var v, d string
+			for attempt := 0; attempt < 4; attempt++ {
+				if v, d = fsRun(sc, c.Seed); v != "none" {
+					break
+				}
+			}
 			b, _ := json.Marshal(fsOutcome{Idx: i, Verdict: v, Detail: d})
 			mu.Lock()
 			fmt.Fprintf(w, "AT %d\nRESULT %s\n", i, b)
@@ -350,7 +362,8 @@ func replayFastSync(c *core.Ctx, m *model) {
 		}
 		c.AddTraces(1)
 		c.AddEvals(1)
-		rec := map[string]interface{}{"scenario": sc, "verdict": o.Verdict, "detail": o.Detail}
+		rec := map[string]interface{}{"kind": "fastsync", "scenario": sc, "verdict": o.Verdict, "detail": o.Detail,
+			"replay": map[string]interface{}{"scenario": sc, "seed": c.Seed}}
 		switch {
 		case o.Verdict == "none":
 			c.Infra("fast sync scenario %d (%v %v): %s", i, sc.Pw, sc.Kinds, o.Detail)
